@@ -191,6 +191,81 @@ ASCII_XPATH = list("()[]{}/@.,:;$*+-=!<>|?#'\" \n\t") + list('abcdeqQxyz01234567
      'return', 'in', 'map', 'array', 'function', 'xs:', 'fn:', 'text()', 'node()', 'item()', 'element(', 'empty-sequence()']
 
 
+# one representative per item type: the systematic operator x type x type and function x position x type
+# matrices of the exploration stream
+TYPE_CLASSES = [
+    ('1.0', '1'), ('1.0', '1.5'), ('1.0', '1e0'), ('1.0', "'abc'"), ('1.0', "'1'"), ('1.0', 'true()'),
+    ('1.0', '/a/b'), ('1.0', '/a/c/@x'), ('1.0', '/'), ('1.0', '/a/nothing'),
+    ('2.0', '()'), ('2.0', '(1, 2)'), ("2.0", "(1, 'a')"), ('2.0', "xs:double('NaN')"), ('2.0', "xs:float('1')"),
+    ('2.0', "xs:date('2001-01-01')"), ('2.0', "xs:dateTime('2001-01-01T10:00:00Z')"), ('2.0', "xs:time('10:00:00')"),
+    ('2.0', "xs:dayTimeDuration('PT1S')"), ('2.0', "xs:yearMonthDuration('P1M')"), ('2.0', "xs:duration('P1Y2M3DT4H')"),
+    ('2.0', "xs:QName('p:a')"), ('2.0', "xs:anyURI('http://x/y')"), ('2.0', "xs:untypedAtomic('5')"),
+    ('2.0', "xs:untypedAtomic('x')"), ('2.0', "xs:hexBinary('0F')"), ('2.0', "xs:gYear('2001')"),
+    ('2.0', '99999999999999999999'),
+    ('3.0', 'abs#1'), ('3.0', 'function($x) { $x }'),
+    ('3.1', "map{'a': 1}"), ('3.1', '[1, 2]'),
+]
+
+
+OP_MATRIX_SKIP = {'1.5', "'1'", '/', '/a/nothing', "(1, 'a')", "xs:float('1')", "xs:time('10:00:00')",
+                  "xs:duration('P1Y2M3DT4H')", "xs:anyURI('http://x/y')", "xs:untypedAtomic('5')", "xs:gYear('2001')",
+                  'function($x) { $x }', "xs:dateTime('2001-01-01T10:00:00Z')"}
+
+
+def classes_for(v: str) -> list[str]:
+    return [e for mv, e in TYPE_CLASSES if vle(mv, v)]
+
+
+def matrix_cases(v: str, ftable, full_pool: bool = False) -> list[tuple[str, str]]:
+    """(source, generator tag): every binary operator x class x class, every sequence-type keyword x
+    class, every function x argument position x class (other arguments: plain defaults)"""
+    cls = classes_for(v)
+    out = []
+    # operands of the operator matrix: without near-duplicate classes unless the full pool is asked for
+    opcls = cls if full_pool else [c for c in cls if c not in OP_MATRIX_SKIP]
+    for op in binops_for(v):
+        if op == '=>':
+            continue
+        sp = '' if op in ('/', '//') else ' '
+        for a in opcls:
+            for b in opcls:
+                out.append((f'{a}{sp}{op}{sp}{b}', 'matrix-op'))
+    for op in ('-', '+'):
+        for a in cls:
+            out.append((f'{op}{a}', 'matrix-op'))
+    if v != '1.0':
+        for a in cls:
+            for t in SEQ_TYPES:
+                for kw in ('instance of', 'cast as', 'castable as', 'treat as'):
+                    out.append((f'{a} {kw} {t}', 'matrix-type'))
+            out.append((f'if ({a}) then 1 else 2', 'matrix-op'))
+            out.append((f'some $x in {a} satisfies $x', 'matrix-op'))
+            out.append((f'for $x in {a} return $x + 1', 'matrix-op'))
+            out.append((f'(1, 2)[{a}]', 'matrix-op'))
+            out.append((f'/a/b[{a}]', 'matrix-op'))
+    if v >= '3.1':
+        for a in cls:
+            for name, lo, hi, _ in ftable[::7]:
+                out.append((f'{a} => {name}()', 'matrix-fn'))
+            for k in cls[:12]:
+                out.append((f'{a}?({k})', 'matrix-op'))
+                out.append((f'{a}({k})', 'matrix-op'))
+    vals = pool_for(v) if full_pool else cls
+    defaults = ["'abc'", '1', '/a/b'] + (['()'] if v != '1.0' else [])
+    for name, lo, hi, _label in ftable:
+        maxn = (lo + 2) if hi is None else hi
+        for n in range(lo, maxn + 1):
+            if n == 0:
+                out.append((f'{name}()', 'matrix-fn'))
+                continue
+            for pos in range(n):
+                for val in vals:
+                    args = [defaults[(pos + n + k) % len(defaults)] for k in range(n)]
+                    args[pos] = val
+                    out.append((f'{name}({", ".join(args)})', 'matrix-fn'))
+    return out
+
+
 def vle(v: str, w: str) -> bool:
     return VERSIONS.index(v) <= VERSIONS.index(w)
 
